@@ -5,6 +5,7 @@ CONSTANTS
   ThirdChoices = {FALSE}
   DelChoices = {"none", "R", "W", "PA", "PB"}
   BlackoutChoices = {0}
+  PostChoices = {"none"}
   MatchOnCreate = TRUE
   RematchFix = TRUE
   GenK = 1000000
